@@ -396,6 +396,25 @@ def check(run):
     if not ok:
         run.violation("R6", fh.where, f"fill_holes refuses meshes with fewer than {max(thr)} faces: a tetrahedron missing one face (three faces, one triangular hole) is no longer closed",
                       key=key_of("C18-R6", "min-faces"))
+    # ------------------------------------------------------------------ R8 edge identity is not packed by hand
+    run.rule("R8", "remesh.py / repair.py: edges (rows of two vertex indices) are identified through grouping.unique_rows / group_rows, never through a key "
+                   "packed by hand in the caller's index dtype (`e[:, 1] * n + e[:, 0]` wraps for 32-bit faces: two edges share a midpoint)")
+    from ..idioms import hand_packed_keys
+    n8 = 0
+    for f_ in ix.all_functions:
+        if f_.module.name not in ("trimesh.remesh", "trimesh.repair") or f_.parent is not None:
+            continue
+        src_ = ast.unparse(f_.node)
+        if not any(k_ in src_ for k_ in ("unique", "argsort", "bincount", "searchsorted", "isin", "in1d", "lexsort", "group")):
+            continue
+        n8 += 1
+        hits = hand_packed_keys(ix, f_)
+        run.instance("R8", f_.where, f"{f_.qualname}: row identity established on hand-packed integer keys: {len(hits)}", not hits)
+        for c_, key_, why_ in hits:
+            run.violation("R8", f"{f_.module.rel}:{c_.lineno} {f_.qualname}", f"{why_}: for int32 / uint32 faces the product wraps once the vertex count "
+                                f"passes ~46k / ~65k, distinct edges then share one key (and one midpoint); use grouping.unique_rows",
+                          key=key_of("C18-R8", f_.qualname, "hand-packed"))
+    run.floor("remesh / repair functions that de-duplicate", n8, 3)
     run.assume("real arithmetic; that BFS re-winding reaches consistency for every flip subset, hole detection, Euler number, edge-length bound and Loop "
                "masks are not decided")
     return {
